@@ -14,6 +14,7 @@ import Mfi.Props.C03
 import Mfi.Model.Ix
 import Mfi.Model.Venue
 import Mfi.Lemmas.WorldLedger
+import Mfi.Lemmas.WorldTxL
 
 namespace Mfi.Props.C02
 open Mfi Mfi.Fx Mfi.Bank Mfi.Gen
@@ -557,6 +558,11 @@ theorem world_liquidation_and_bankruptcy_ledger_step :
     account and bank, with any arguments, refused ones rolled back, the clock advancing in between) in a world of any number of accounts and banks with distinct keys, every bank's share totals equal the sum
     over all accounts of the shares their slot arrays hold in it, plus the dust that closures abandoned there. -/
 theorem world_ledger_history (w : WState) (ops : List WOp) (h : WInv w) : WInv (w.run ops) := run_inv ops w h
+
+/-- **world_ledger_over_transactions**: … and over every sequence of TRANSACTIONS of the world state machine (whole instructions and
+    flash-loan brackets, executed atomically: a refused instruction rolls its whole transaction back): inside a flash loan the
+    health checks are skipped, the bookkeeping is not -/
+theorem world_ledger_over_transactions (w : WState) (txs : List (List TOp)) (h : WInv w) : WInv (w.runTxs txs) := runTxs_inv txs w h
 
 /-- an empty world satisfies the invariant (so does every world reached from it: non-vacuity of the history theorem) -/
 theorem world_ledger_initial (now : Int) (g : GroupV) (banks : List WBank) (n : Nat)
